@@ -553,6 +553,9 @@ func (v *Validator) validateParallelismSpecWithMatrix(
 			allErrs = append(allErrs, field.Invalid(fldPath, key, detail))
 			continue
 		}
+		if len(vals) == 0 {
+			allErrs = append(allErrs, field.Required(fldPath.Key(key), "must specify at least one value"))
+		}
 		for _, val := range vals {
 			if len(val) == 0 {
 				allErrs = append(allErrs, field.Required(fldPath.Key(key), "value cannot be empty"))
